@@ -43,6 +43,7 @@ def move_file(fs,  # type: Fs
               src, # type: str
               dest, # type: str
               ):
-    # Using nornpath allow to delete symlink to a dir even if the are
-    # specified with traling slash
-    fs.move(os.path.normpath(src), dest)
+    # Removing the trailing slashes allows to delete symlink to a dir even if
+    # they are specified with trailing slash. The path is not normalized
+    # further: 'link/../x' is not './x' when 'link' is a symbolic link.
+    fs.move(src.rstrip(os.path.sep) or src[:1], dest)
